@@ -14,6 +14,7 @@ def main (args : List String) : IO UInt32 := do
   | ["cli"] => PegVerif.cliMain
   | ["diag"] => PegVerif.diagMain
   | ["front"] => PegVerif.frontMain
+  | ["casemap"] => PegVerif.casemapMain
   | _ =>
     IO.eprintln s!"pegmodel: unknown command {args}"
     return 2
